@@ -19,7 +19,7 @@ def run(tier):
         if c["kind"] == "resp":
             s["ops"] = ["%s%s" % (o["k"], o["s"] if o["k"] == "WH" else (o["n"] if o["k"] == "W" else "")) for o in c["ops"]]
         elif c["kind"] == "head":
-            s["declared"], s["status"] = c["declared"], c["status"]
+            s["declared"], s["status"], s["method"] = c["declared"], c["status"], c.get("method", "HEAD")
         else:
             s["size"], s["framing"] = c["size"], c["framing"]
         s["observed"] = e["o"]
